@@ -138,6 +138,7 @@ func c08BCECrossCheck(c *Ctx) {
 var c08Assumed = map[string]string{
 	"ProxyItem.transports[0]": "every `listens` entry configures a UDP or TCP port, and listener transports are never removed (IsExit() is false for a listening transport because its conn is nil)",
 	"NewTCPServerTransportWithConn": "net.SplitHostPort(conn.LocalAddr().String()) does not fail for an established TCP connection, so the constructor does not return nil",
+	"NewUDPClientTransportWithConn": "net.ResolveUDPAddr(\"udp\", conn.LocalAddr().String()) does not fail for a bound UDP socket, so the constructor does not return nil",
 }
 
 func c08Panics(c *Ctx) {
@@ -274,6 +275,7 @@ func c08Panics(c *Ctx) {
 		})
 	}
 	c08ErrorPaired(c, reach)
+	c08NilEscape(c, reach)
 	c.info(rule, "population", "-", fmt.Sprintf("%d network-reachable functions; obligations: %v", len(reach), counts))
 	if counts["index"] < 30 || counts["slice"] < 30 {
 		c.undecided(rule, "floor", "-", fmt.Sprintf("only %d index and %d slice obligations found in network-reachable code (expected >= 30 each): the population is not being enumerated", counts["index"], counts["slice"]))
@@ -495,7 +497,7 @@ func c08ErrorPaired(c *Ctx, reach map[*ssa.Function]bool) {
 						guarded = w.correlatedGuard(fn, u, call, callee)
 					}
 					if !guarded {
-						if reason, ok := c08Assumed[w.fname(callee)]; ok {
+						if reason, ok := c08Assumed[w.fname(callee)]; ok && w.nilOnlyOnLocalAddrFailure(callee) {
 							c.assume(rule, key, w.ipos(u), reason)
 							continue
 						}
@@ -911,4 +913,208 @@ func c08NoRecursion(c *Ctx) {
 		c.bad(rule, fmt.Sprintf("cycle#%d/%s", i+1, names[0]), w.pos(comp[0].Pos()), "call cycle among network-reachable functions: "+strings.Join(names, " -> ")+" (input-driven recursion can exhaust the stack, which cannot be recovered)")
 	}
 	c.ok(rule, "call-graph", "-", fmt.Sprintf("%d network-reachable functions, %d cycles", len(reach), len(cycles)))
+}
+
+// c08NilEscape: a pointer or interface result that is nil (or a nil pointer wrapped in an interface) when its call
+// fails must not be kept - stored into a field, a table or a package variable - at a point where the failure has not
+// been excluded: a later `!= nil` test on the stored interface does not see a typed nil, and the next use panics.
+func c08NilEscape(c *Ctx, reach map[*ssa.Function]bool) {
+	w := c.w
+	rule := "panic-obligations"
+	n := 0
+	for _, fn := range w.All {
+		if !reach[fn] {
+			continue
+		}
+		per := 0
+		for _, cs := range w.callsIn(fn) {
+			call, ok := cs.In.(*ssa.Call)
+			if !ok {
+				continue
+			}
+			ei := errIndex(call)
+			if ei < 0 {
+				continue
+			}
+			sig := call.Common().Signature()
+			callee := call.Common().StaticCallee()
+			for ri := 0; ri < sig.Results().Len(); ri++ {
+				if ri == ei || !isPtrOrIface(sig.Results().At(ri).Type()) {
+					continue
+				}
+				if callee != nil && w.isMain(callee) {
+					if w.nilStatus(callee, ri, map[string]bool{}) == nilNever {
+						continue
+					}
+				}
+				val := ssa.Value(extractOf(call, ri))
+				if e, ok := val.(*ssa.Extract); !ok || e == nil {
+					continue
+				}
+				// kept: stored (directly or wrapped in an interface) into a field, element, map or global
+				var keeps []ssa.Instruction
+				ifaceSeen := map[ssa.Instruction]bool{}
+				_, valIsIface := val.Type().Underlying().(*types.Interface)
+				var walk func(v ssa.Value, d int, iface bool)
+				walkd := func(v ssa.Value, d int) {}
+				_ = walkd
+				walk = func(v ssa.Value, d int, iface bool) {
+					if d > 3 || v.Referrers() == nil {
+						return
+					}
+					for _, u := range *v.Referrers() {
+						switch x := u.(type) {
+						case *ssa.MakeInterface:
+							walk(x, d+1, true)
+						case *ssa.ChangeInterface:
+							walk(x, d+1, iface)
+						case *ssa.ChangeType:
+							walk(x, d+1, iface)
+						case *ssa.Phi:
+							walk(x, d+1, iface)
+						case *ssa.Store:
+							if x.Val != v {
+								continue
+							}
+							switch a := x.Addr.(type) {
+							case *ssa.FieldAddr, *ssa.IndexAddr, *ssa.Global:
+								keeps = append(keeps, x)
+								ifaceSeen[x] = iface
+							case *ssa.Alloc:
+								if a.Heap {
+									// escaping local: follow its loads
+									for _, r := range *a.Referrers() {
+										if ld, ok := r.(*ssa.UnOp); ok && ld.Op == token.MUL {
+											walk(ld, d+1, iface)
+										}
+									}
+								}
+							}
+						case *ssa.MapUpdate:
+							if x.Value == v {
+								keeps = append(keeps, x)
+								ifaceSeen[x] = iface
+							}
+						}
+					}
+				}
+				walk(val, 0, valIsIface)
+				for _, k := range keeps {
+					if !ifaceSeen[k] && !w.isMainType(val.Type()) {
+						continue // a library pointer kept as a pointer: nil is an ordinary value for the library (e.g. a nil local address)
+					}
+					if w.discardedOnFailure(fn, k, call) {
+						continue // written into an object under construction that is dropped when the call failed
+					}
+					n++
+					per++
+					key := fmt.Sprintf("%s/nil-escape/%s#%d", w.fname(fn), cs.Name, per)
+					guarded := w.requires(fn, k, errNil(call), true)
+					if !guarded {
+						nilT := func(a Atom) bool { return a.Kind == "nil" && strip(a.X) == strip(val) }
+						guarded = w.requires(fn, k, nilT, false)
+					}
+					if !guarded {
+						if reason, ok := c08Assumed[cs.Name]; ok && callee != nil && w.nilOnlyOnLocalAddrFailure(callee) {
+							c.assume(rule, key, w.ipos(k), reason)
+							continue
+						}
+					}
+					c.check(guarded, rule, key, w.ipos(k), "the result of "+cs.Name+" is kept only where the call succeeded", "the result of "+cs.Name+" is kept at "+w.ipos(k)+" although the call may have failed there (its error is not excluded): a nil pointer, possibly wrapped in a non-nil interface that later `!= nil` tests do not detect, is used by the next send and panics in network-reachable code")
+				}
+			}
+		}
+	}
+	c.info(rule, "nil-escape", "-", fmt.Sprintf("%d stores of results of fallible calls inspected", n))
+}
+
+// discardedOnFailure: store k writes into an object allocated in fn, and on every path from k on which call failed the
+// function returns without handing that object out (the partly built object is dropped).
+func (w *World) discardedOnFailure(fn *ssa.Function, k ssa.Instruction, call *ssa.Call) bool {
+	st, ok := k.(*ssa.Store)
+	if !ok {
+		return false
+	}
+	fa, ok := st.Addr.(*ssa.FieldAddr)
+	if !ok {
+		return false
+	}
+	base := strip(fa.X)
+	if !w.isFreshValue(fn, base, 0) {
+		return false
+	}
+	keep := w.under(assumeAtom(errNil(call), false))
+	for _, r := range returnsUnder(fn, keep) {
+		if !canReach(at(k), keep, isInstr(r), nil) {
+			continue
+		}
+		for _, res := range r.Results {
+			for _, v := range valuesUnder(fn, res, keep) {
+				if strip(v) == base {
+					return false
+				}
+			}
+		}
+	}
+	// the object must not be published before the check either
+	pub := false
+	if refs := base.Referrers(); refs != nil {
+		for _, u := range *refs {
+			switch x := u.(type) {
+			case *ssa.Store:
+				if x.Val == base {
+					if _, isAl := x.Addr.(*ssa.Alloc); !isAl {
+						pub = true
+					}
+				}
+			case *ssa.Send, *ssa.Go, *ssa.MapUpdate:
+				pub = true
+			}
+		}
+	}
+	return !pub
+}
+
+// nilOnlyOnLocalAddrFailure validates the named constructor assumptions on the current source: every return of the
+// constructor that can yield nil is taken only when net.SplitHostPort / net.ResolveUDPAddr applied to the text of
+// conn.LocalAddr() failed - nothing else (no remote address, no lookup) can make it return nil.
+func (w *World) nilOnlyOnLocalAddrFailure(fn *ssa.Function) bool {
+	var ks []*ssa.Call
+	for _, cs := range w.callsIn(fn, "net.SplitHostPort", "net.ResolveUDPAddr") {
+		call, ok := cs.In.(*ssa.Call)
+		if !ok {
+			continue
+		}
+		fromLocal := false
+		for _, a := range call.Call.Args {
+			if sc, _ := callOfResult(a); sc != nil && strings.HasSuffix(w.calleeName(sc), "String") {
+				if la, _ := callOfResult(callArg(sc, -1)); la != nil && strings.HasSuffix(w.calleeName(la), "LocalAddr") {
+					fromLocal = true
+				}
+			}
+		}
+		if fromLocal {
+			ks = append(ks, call)
+		}
+	}
+	if len(ks) == 0 {
+		return false
+	}
+	for _, r := range returnsUnder(fn, nil) {
+		for _, v := range phiLeaves(r.Results[0]) {
+			if !isNilConst(v) {
+				continue
+			}
+			ok := false
+			for _, k := range ks {
+				if w.requires(fn, r, errNil(k), false) {
+					ok = true
+				}
+			}
+			if !ok {
+				return false
+			}
+		}
+	}
+	return true
 }
